@@ -51,9 +51,9 @@ pub struct SendRec {
 
 pub enum CallerSet {
     Any,
-    Addrs(Set<Address>),
-    Types(Set<Type>),
-    Namespace(Set<u64>),
+    Addrs(vstd::set::Set<Address>),
+    Types(vstd::set::Set<Type>),
+    Namespace(vstd::set::Set<u64>),
 }
 
 pub struct Msg {
@@ -121,40 +121,40 @@ pub assume_specification<T>[std::iter::once](v: T) -> (r: std::iter::Once<T>)
     ensures once_val(r) == v;
 
 pub trait CallerAddrs: Sized {
-    spec fn addrs(self) -> Set<Address>;
+    spec fn addrs(self) -> vstd::set::Set<Address>;
 }
 impl<'a> CallerAddrs for std::iter::Once<&'a Address> {
-    open spec fn addrs(self) -> Set<Address> { set![*once_val(self)] }
+    open spec fn addrs(self) -> vstd::set::Set<Address> { set![*once_val(self)] }
 }
 impl<'a, const N: usize> CallerAddrs for &'a [Address; N] {
-    open spec fn addrs(self) -> Set<Address> { self@.to_set() }
+    open spec fn addrs(self) -> vstd::set::Set<Address> { self@.to_set() }
 }
 impl<'a> CallerAddrs for &'a Vec<Address> {
-    open spec fn addrs(self) -> Set<Address> { self@.to_set() }
+    open spec fn addrs(self) -> vstd::set::Set<Address> { self@.to_set() }
 }
 impl<'a> CallerAddrs for std::slice::Iter<'a, Address> {
-    uninterp spec fn addrs(self) -> Set<Address>;
+    uninterp spec fn addrs(self) -> vstd::set::Set<Address>;
 }
 impl<'a, A: CallerAddrs, B: CallerAddrs> CallerAddrs for std::iter::Chain<A, B> {
-    uninterp spec fn addrs(self) -> Set<Address>;
+    uninterp spec fn addrs(self) -> vstd::set::Set<Address>;
 }
 pub trait CallerTypes: Sized {
-    spec fn types(self) -> Set<Type>;
+    spec fn types(self) -> vstd::set::Set<Type>;
 }
 impl<'a> CallerTypes for std::iter::Once<&'a Type> {
-    open spec fn types(self) -> Set<Type> { set![*once_val(self)] }
+    open spec fn types(self) -> vstd::set::Set<Type> { set![*once_val(self)] }
 }
 impl<'a, const N: usize> CallerTypes for &'a [Type; N] {
-    open spec fn types(self) -> Set<Type> { self@.to_set() }
+    open spec fn types(self) -> vstd::set::Set<Type> { self@.to_set() }
 }
 impl<'a> CallerTypes for &'a Vec<Type> {
-    open spec fn types(self) -> Set<Type> { self@.to_set() }
+    open spec fn types(self) -> vstd::set::Set<Type> { self@.to_set() }
 }
 pub trait CallerNs: Sized {
-    spec fn ns(self) -> Set<u64>;
+    spec fn ns(self) -> vstd::set::Set<u64>;
 }
 impl CallerNs for std::iter::Once<u64> {
-    open spec fn ns(self) -> Set<u64> { set![once_val(self)] }
+    open spec fn ns(self) -> vstd::set::Set<u64> { set![once_val(self)] }
 }
 
 impl Rt {
